@@ -232,3 +232,43 @@ CONTRACTS.update({
         split=_SPLIT_ANY + _SPLIT_KEYED + _SPLIT_EXC, split_is_domain=True, skip_callee_clauses=["*"],
         properties=["C05"], battery="scale_ctor_k"),
 })
+
+
+# ------------------------------------------------------------------ C09
+from mingus.core import value as _value  # noqa: E402
+
+
+def c09_analyse_dotted(base, nr):
+    return _value.determine(_value.dots(base, nr))
+
+
+def c09_analyse_tuplet(base, kind):
+    v = _value.triplet(base) if kind == 3 else _value.quintuplet(base) if kind == 5 else _value.septuplet(base)
+    return _value.determine(v)
+
+
+def c09_add_then_subtract(a, b):
+    return _value.subtract(_value.add(a, b), b)
+
+
+_BASES = [0.25, 0.5, 1, 2, 4, 8, 16, 32, 64, 128]
+CONTRACTS.update({
+    L + "c09_analyse_dotted": dict(
+        params={"base": "real", "nr": "int"}, returns="(real,int,int,int)",
+        ensures=[("returns-what-it-was-built-from", "result == (base, nr, 1, 1)")],
+        split=[{"bind": {"base": b, "nr": n}} for b in _BASES for n in range(5)], split_is_domain=True,
+        inline_all=True,
+        notes="complete finite case split (10 bases x 0..4 dots), every case evaluated through the engine on the "
+              "real function bodies with CPython's own float arithmetic (all values concrete)",
+        properties=["C09"], battery="base_dots"),
+    L + "c09_analyse_tuplet": dict(
+        params={"base": "real", "kind": "int"}, returns="(real,int,int,int)",
+        ensures=[("returns-what-it-was-built-from",
+                  "result == (base, 0, kind, 2 if kind == 3 else 4)")],
+        split=[{"bind": {"base": b, "kind": k}} for b in _BASES for k in (3, 5, 7)], split_is_domain=True,
+        inline_all=True, properties=["C09"], battery="base_kind"),
+    L + "c09_add_then_subtract": dict(
+        params={"a": "real", "b": "real"}, requires="a > 0 and b > 0", returns="real",
+        ensures=[("inverse", "feq(result, a)")],
+        properties=["C09"], battery="value_pairs_pos"),
+})
